@@ -272,6 +272,11 @@ def gen_table(rng, tier):
             spec["form"] = "scalar"
             spec["st"] = t
             spec["s"] = rng.randrange(len(POOLS[t]))
+            r = rng.random()
+            if r < 0.4:
+                spec["refl"] = True          # scalar on the left: the same operation column by column, operands swapped
+            elif r < 0.55:
+                spec["unary"] = rng.choice(list(UNOPS))      # -t, +t, abs(t): the unary operation column by column
         else:
             spec["form"] = "table"
             r = rng.random()
@@ -466,6 +471,14 @@ def table_wire(spec):
     I = Interner()
     op = spec["op"]
     f = BINOPS[op]
+    refl, un = bool(spec.get("refl")), spec.get("unary")
+    if un:
+        # encoded as "table op dummy-scalar" with the unary result in the oracle table, so that the same judge applies
+        g = UNOPS[un]
+        f = lambda x, y: g(x)
+    elif refl:
+        h = BINOPS[op]
+        f = lambda x, y: h(y, x)
     try:
         t1 = _table(spec["cols"])
         t2 = _table(spec["cols2"]) if spec["form"] == "table" else None
@@ -482,7 +495,7 @@ def table_wire(spec):
         key = (I.uid(x), I.uid(y))
         if isinstance(y, int) and (spec["form"] != "scalar" or type(y) is int):
             ints.add(I.uid(y))
-            if col.schema() is not None and col.schema().kind is datetime.date and op == "add" and ("d",) + key not in seen:
+            if not un and col.schema() is not None and col.schema().kind is datetime.date and op == "add" and ("d",) + key not in seen:
                 seen.add(("d",) + key)
                 days.append([key[0], key[1], G.res_code(I, lambda: x + datetime.timedelta(days=y))])
         if key in seen:
@@ -506,7 +519,12 @@ def table_wire(spec):
                 add_pair(a, x, y)
         other = t2
     case.update(py=py, days=days, ints=sorted(ints))
-    r, err = G.run(lambda: f(t1, other))
+    if un:
+        r, err = G.run(lambda: UNOPS[un](t1))
+    elif refl:
+        r, err = G.run(lambda: BINOPS[op](other, t1))
+    else:
+        r, err = G.run(lambda: f(t1, other))
     if err:
         impl = {"err": err}
     elif not isinstance(r, Table):
@@ -671,7 +689,13 @@ def snippet(spec):
         def tsrc(cols):
             return "Table({" + ", ".join(f"'c{j}': {G.pyrepr(vals(c['t'], c['x']))}" for j, c in enumerate(cols)) + "})"
         other = G.pyrepr(val(spec["st"], spec["s"])) if spec["form"] == "scalar" else tsrc(spec["cols2"])
-        return (G.HEADER + f"t = {tsrc(spec['cols'])}\nother = {other}\nr = t {SYMBOL[spec['op']]} other\n"
+        if spec.get("unary"):
+            e = {"neg": "-t", "pos": "+t", "abs": "abs(t)"}[spec["unary"]]
+        elif spec.get("refl"):
+            e = f"other {SYMBOL[spec['op']]} t"
+        else:
+            e = f"t {SYMBOL[spec['op']]} other"
+        return (G.HEADER + f"t = {tsrc(spec['cols'])}\nother = {other}\nr = {e}\n"
                 "print([list(c) for c in r.cols()])   # expected: the vector operation column by column")
     return repr(spec)
 
